@@ -45,6 +45,27 @@ structure ClassRow where
   ctor : List (String × String)
   deriving DecidableEq, Repr, Inhabited
 
+/-- one parameter of a method (`inspect.signature`, `self` dropped): `default` is `repr(default)`, `""` when
+the parameter is required; `kind` 0 named, 1 `*args`, 2 `**kwargs` -/
+structure Param where
+  name : String
+  default : String
+  kind : Nat
+  deriving DecidableEq, Repr, Inhabited
+
+/-- a function that replaces a method of a base class (`Machine`, `State`, `Event`, `Transition`) in one of the
+predefined classes or in a resolved `state_cls / event_cls / transition_cls` -/
+structure Override where
+  /-- the class of the MRO whose body holds the function -/
+  owner : String
+  method : String
+  base : String
+  /-- the classes that have this function in their MRO -/
+  usedBy : List String
+  baseParams : List Param
+  params : List Param
+  deriving DecidableEq, Repr, Inhabited
+
 /-- result of `MachineFactory.get_predefined(*tuple)` -/
 inductive Answer
   | cls (name : String)
